@@ -69,13 +69,17 @@ def make_stub_classifier():
         unrelated model; nothing else."""
 
         def __init__(self, classes=None, missing_label=MISSING_LABEL, cost_matrix=None, random_state=None,
-                     n_classes=2, gen=0):
+                     n_classes=2, gen=0, validate=False):
             super().__init__(classes=classes, missing_label=missing_label, cost_matrix=cost_matrix,
                              random_state=random_state)
             self.n_classes = n_classes
             self.gen = gen
+            self.validate = validate
 
         def fit(self, X, y, sample_weight=None):
+            if self.validate:
+                # the real SkactivemlClassifier._validate_data: label encoder _le, classes_, cost_matrix_, ...
+                X, y, sample_weight = self._validate_data(X, y, sample_weight)
             self.fit_log_ = getattr(self, "fit_log_", []) + [(X, y, sample_weight)]
             # a deterministic learner: the fitted model is a function of the training data (and of the estimator's
             # parameters) only -> equal training sets give the same model generation
@@ -131,7 +135,7 @@ def StubClassifier(**kw):
     return m
 
 
-def real_table_classifier(table, n_classes=2):
+def real_table_classifier(table, n_classes=2, validate=False):
     """concrete classifier for replays: predict_proba looks rows up in `table`
     (list of (row, probs)); unknown rows get the uniform distribution."""
     from skactiveml.base import SkactivemlClassifier
@@ -139,13 +143,16 @@ def real_table_classifier(table, n_classes=2):
 
     class TableClassifier(SkactivemlClassifier):
         def __init__(self, classes=None, missing_label=MISSING_LABEL, cost_matrix=None, random_state=None,
-                     table=None, n_classes=2):
+                     table=None, n_classes=2, validate=False):
             super().__init__(classes=classes, missing_label=missing_label, cost_matrix=cost_matrix,
                              random_state=random_state)
             self.table = table
             self.n_classes = n_classes
+            self.validate = validate
 
         def fit(self, X, y, sample_weight=None):
+            if self.validate:
+                self._validate_data(X, y, sample_weight)
             self.classes_ = np.arange(self.n_classes)
             self.fit_count_ = getattr(self, "fit_count_", 0) + 1
             return self
@@ -162,6 +169,6 @@ def real_table_classifier(table, n_classes=2):
         def predict(self, X):
             return np.arange(self.n_classes)[np.argmax(self.predict_proba(X), axis=1)]
 
-    m = TableClassifier(table=table, n_classes=n_classes, classes=list(range(n_classes)))
+    m = TableClassifier(table=table, n_classes=n_classes, classes=list(range(n_classes)), validate=validate)
     CREATED.append(m)
     return m
